@@ -34,10 +34,20 @@ struct TaggedValue {
 	bool operator<(const TaggedValue & o) const { return type != o.type ? type < o.type : repr < o.repr; }
 };
 
+// a storage that keeps only the textual form: values of DIFFERENT types collapse to equal stored copies (int 1, long 1,
+// char 1, enum 1, string "1") while their digests may differ - equality still has to agree with ordering and hashing
+struct TextValue {
+	std::string repr;
+	TextValue() {}
+	template <typename T> TextValue(const T & v) : repr(TypeTag<T>::repr(v)) {}
+	bool operator==(const TextValue & o) const { return repr == o.repr; }
+	bool operator<(const TextValue & o) const { return repr < o.repr; }
+};
+
 template <typename Id> struct OrderedPol { using Threading = eventpp::SingleThreading; template <typename K, typename V> using Map = std::map<K, V>; };
 template <typename Id> struct HashedPol { using Threading = eventpp::SingleThreading; template <typename K, typename V> using Map = std::unordered_map<K, V>; };
 
-template <typename Id, bool ValueStoring>
+template <typename Id, int ValueStoring>   // 0 = no storage, 1 = type-tagged value, 2 = textual value (collapses across types)
 static void runConfig(Ctx & ctx, const char * cfgName, long & evals) {
 	std::vector<Id> ids; std::vector<std::string> names; std::vector<TaggedValue> tv;
 	#define ADD(T, V, NAME) ids.push_back(Id((T)(V))); names.push_back(NAME); tv.push_back(TaggedValue((T)(V)));
@@ -48,6 +58,7 @@ static void runConfig(Ctx & ctx, const char * cfgName, long & evals) {
 	ids.push_back(Id(std::string("a"))); names.push_back("string \"a\""); tv.push_back(TaggedValue(std::string("a")));
 	ids.push_back(Id(std::string("b"))); names.push_back("string \"b\""); tv.push_back(TaggedValue(std::string("b")));
 	ids.push_back(Id(std::string("ab"))); names.push_back("string \"ab\""); tv.push_back(TaggedValue(std::string("ab")));
+	ids.push_back(Id(std::string("1"))); names.push_back("string \"1\""); tv.push_back(TaggedValue(std::string("1")));
 	ADD(Color, Color::Red, "enum Red(1)")
 	// a second, separately built id of an equal value
 	ADD(int, 1, "int 1 (second instance)")
@@ -69,7 +80,8 @@ static void runConfig(Ctx & ctx, const char * cfgName, long & evals) {
 			if((!lt && !gt) != eq) ctx.fail("incomparable-differs-from-equal", where(i, j) + fmt(": a==b is %d but a<b is %d and b<a is %d", (int)eq, (int)lt, (int)gt));
 			if(eq && H(ids[i]) != H(ids[j])) ctx.fail("equal-ids-hash-differently", where(i, j));
 			bool digestEq = ids[i].getDigest() == ids[j].getDigest();
-			if(ValueStoring) { if(eq != (digestEq && tv[i] == tv[j])) ctx.fail("value-storage-equality-wrong", where(i, j) + fmt(": a==b is %d, digests %sequal, stored values %sequal", (int)eq, digestEq ? "" : "un", tv[i] == tv[j] ? "" : "un")); }
+			bool storedEq = ValueStoring == 2 ? tv[i].repr == tv[j].repr : tv[i] == tv[j];
+			if(ValueStoring) { if(eq != (digestEq && storedEq)) ctx.fail("value-storage-equality-wrong", where(i, j) + fmt(": a==b is %d, digests %sequal, stored values %sequal", (int)eq, digestEq ? "" : "un", storedEq ? "" : "un")); }
 			else if(eq != digestEq) ctx.fail("digest-equality-wrong", where(i, j) + fmt(": a==b is %d but digests are %sequal", (int)eq, digestEq ? "" : "un"));
 			for(size_t k = 0; k < n; ++k) {
 				++evals;
@@ -109,22 +121,25 @@ static void runConfig(Ctx & ctx, const char * cfgName, long & evals) {
 static void runAll(Ctx & ctx, UnitReport & rep) {
 	long evals = 0;
 	ctx.executions = 0;
-	runConfig<eventpp::AnyId<std::hash, eventpp::EmptyAnyStorage>, false>(ctx, "AnyId<std::hash, EmptyAnyStorage>", evals);
-	runConfig<eventpp::AnyId<OneBit, eventpp::EmptyAnyStorage>, false>(ctx, "AnyId<1-bit digester, EmptyAnyStorage>", evals);
-	runConfig<eventpp::AnyId<Constant, eventpp::EmptyAnyStorage>, false>(ctx, "AnyId<constant digester, EmptyAnyStorage>", evals);
-	runConfig<eventpp::AnyId<std::hash, TaggedValue>, true>(ctx, "AnyId<std::hash, value storage>", evals);
-	runConfig<eventpp::AnyId<OneBit, TaggedValue>, true>(ctx, "AnyId<1-bit digester, value storage>", evals);
-	runConfig<eventpp::AnyId<Constant, TaggedValue>, true>(ctx, "AnyId<constant digester, value storage>", evals);
+	runConfig<eventpp::AnyId<std::hash, eventpp::EmptyAnyStorage>, 0>(ctx, "AnyId<std::hash, EmptyAnyStorage>", evals);
+	runConfig<eventpp::AnyId<OneBit, eventpp::EmptyAnyStorage>, 0>(ctx, "AnyId<1-bit digester, EmptyAnyStorage>", evals);
+	runConfig<eventpp::AnyId<Constant, eventpp::EmptyAnyStorage>, 0>(ctx, "AnyId<constant digester, EmptyAnyStorage>", evals);
+	runConfig<eventpp::AnyId<std::hash, TaggedValue>, 1>(ctx, "AnyId<std::hash, value storage>", evals);
+	runConfig<eventpp::AnyId<OneBit, TaggedValue>, 1>(ctx, "AnyId<1-bit digester, value storage>", evals);
+	runConfig<eventpp::AnyId<Constant, TaggedValue>, 1>(ctx, "AnyId<constant digester, value storage>", evals);
+	runConfig<eventpp::AnyId<std::hash, TextValue>, 2>(ctx, "AnyId<std::hash, textual storage>", evals);
+	runConfig<eventpp::AnyId<OneBit, TextValue>, 2>(ctx, "AnyId<1-bit digester, textual storage>", evals);
+	runConfig<eventpp::AnyId<Constant, TextValue>, 2>(ctx, "AnyId<constant digester, textual storage>", evals);
 	ctx.executions = evals;
 	rep.num["executions"] = (double)evals;
-	rep.num["configurations"] = 6;
-	ctx.samples.push_back("AnyId<1-bit digester, value storage>: a = int 1, b = long 1 (digest collision, distinct ids); all 15^2 pairs and 15^3 triples per configuration");
+	rep.num["configurations"] = 9;
+	ctx.samples.push_back("AnyId<1-bit digester, value storage>: a = int 1, b = long 1 (digest collision, distinct ids); all 16^2 pairs and 16^3 triples per configuration");
 }
 
 static struct Register {
 	Register() {
 		Unit u; u.name = "C18/anyid"; u.minTier = 0;
-		u.run = [](Ctx & ctx, UnitReport & rep, int) { ctx.ex.beginExecution(); runAll(ctx, rep); rep.str["config"] = "15 values x 3 digesters x 2 storages: all pairs, all triples, dispatcher lookups in std::map and std::unordered_map"; };
+		u.run = [](Ctx & ctx, UnitReport & rep, int) { ctx.ex.beginExecution(); runAll(ctx, rep); rep.str["config"] = "16 values x 3 digesters x 3 storages: all pairs, all triples, dispatcher lookups in std::map and std::unordered_map"; };
 		u.replay = [](Ctx & ctx, const std::vector<int> &) { UnitReport r; ctx.tracing = true; runAll(ctx, r); };
 		units().push_back(u);
 	}
